@@ -143,6 +143,9 @@ class Walker:
             if [self.canon(x) for x in ta[3]] != [self.canon(x) for x in tb[3]]:
                 raise Diverge("%s: constants differ: %s vs %s" % (ctx, ta[3], tb[3]))
             return
+        if ka == "closure":
+            self.term_eq(ta[1], tb[1], ctx)      # captured values; the closure bodies are compared where they are called
+            return
         if ka == "cast" and not self.types:
             self.term_eq(ta[1], tb[1], ctx)
             return
